@@ -49,16 +49,24 @@ package propertyf
 //@   let k8 = decIntK(src, q7, 7, false, 4, d0)
 //@   let q8 = (k8 == 0 ? decIntP(src, q7, 7, d0) : seekP(src, q7, 7, d0))
 //@   let ok8 = ok7 && (k8 == 0 || (k8 == 1 && (seekK(src, q7, 7, d0) == 2 || (seekK(src, q7, 7, d0) == 1 && seekCanon(src, q7, 7, d0)))))
-//@   opaque [C04] *
+//@   opaque [C04,C06] *
 //@   perreturn
 //@   ensures [C04] (ok1 && err == nil) ==> st.ModuleName == (k1 == 0 ? decStrV(src, q0, 0, d0) : old(st.ModuleName))
+//@   ensures [C06] (k1 == 2) ==> err != nil
 //@   ensures [C04] (ok2 && err == nil) ==> st.Ip == (k2 == 0 ? decStrV(src, q1, 1, d0) : old(st.Ip))
+//@   ensures [C06] (ok1 && k2 == 2) ==> err != nil
 //@   ensures [C04] (ok3 && err == nil) ==> st.PropertyName == (k3 == 0 ? decStrV(src, q2, 2, d0) : old(st.PropertyName))
+//@   ensures [C06] (ok2 && k3 == 2) ==> err != nil
 //@   ensures [C04] (ok4 && err == nil) ==> st.SetName == (k4 == 0 ? decStrV(src, q3, 3, d0) : old(st.SetName))
+//@   ensures [C06] (ok3 && k4 == 2) ==> err != nil
 //@   ensures [C04] (ok5 && err == nil) ==> st.SetArea == (k5 == 0 ? decStrV(src, q4, 4, d0) : old(st.SetArea))
+//@   ensures [C06] (ok4 && k5 == 2) ==> err != nil
 //@   ensures [C04] (ok6 && err == nil) ==> st.SetID == (k6 == 0 ? decStrV(src, q5, 5, d0) : old(st.SetID))
+//@   ensures [C06] (ok5 && k6 == 2) ==> err != nil
 //@   ensures [C04] (ok7 && err == nil) ==> st.SContainer == (k7 == 0 ? decStrV(src, q6, 6, d0) : old(st.SContainer))
+//@   ensures [C06] (ok6 && k7 == 2) ==> err != nil
 //@   ensures [C04] (ok8 && err == nil) ==> st.IPropertyVer == (k8 == 0 ? decIntV(src, q7, 7, d0) : 1)
+//@   ensures [C06] (ok7 && k8 == 2) ==> err != nil
 //@   ensures [C04] ok8 ==> (err == nil && readBuf.buf.i == q8)
 //@   safety [C05]
 //
@@ -90,6 +98,24 @@ package propertyf
 //@   ensures [C03] err == nil && buf.buf.bytes == pre
 //@   safety [C03]
 //
+//@ func (*StatPropMsgHead).WriteBlock
+//@   requires st != nil && validB(buf) && len(st.ModuleName) < 4294967296 && len(st.Ip) < 4294967296 && len(st.PropertyName) < 4294967296 && len(st.SetName) < 4294967296 && len(st.SetArea) < 4294967296 && len(st.SetID) < 4294967296 && len(st.SContainer) < 4294967296
+//@   let e0 = buf.buf.bytes ++ head(StructBegin, tag)
+//@   let e1 = e0 ++ encString(0, st.ModuleName)
+//@   let e2 = e1 ++ encString(1, st.Ip)
+//@   let e3 = e2 ++ encString(2, st.PropertyName)
+//@   let e4 = (st.SetName != "" ? e3 ++ encString(3, st.SetName) : e3)
+//@   let e5 = (st.SetArea != "" ? e4 ++ encString(4, st.SetArea) : e4)
+//@   let e6 = (st.SetID != "" ? e5 ++ encString(5, st.SetID) : e5)
+//@   let e7 = (st.SContainer != "" ? e6 ++ encString(6, st.SContainer) : e6)
+//@   let e8 = (st.IPropertyVer != 1 ? e7 ++ encInt32(7, st.IPropertyVer) : e7)
+//@   let pre = e8 ++ head(StructEnd, 0)
+//@   opaque head encInt8 encInt16 encInt32 encInt64 encString encBool
+//@   perreturn
+//@   modifies buf.buf.bytes
+//@   ensures [C03] result == nil && buf.buf.bytes == pre
+//@   safety [C03]
+//
 //@ func (*StatPropInfo).ResetDefault
 //@   requires st != nil
 //@   pure
@@ -112,10 +138,12 @@ package propertyf
 //@   let k2 = decStrK(src, q1, 1, true, d0)
 //@   let q2 = (k2 == 0 ? decStrP(src, q1, 1, d0) : seekP(src, q1, 1, d0))
 //@   let ok2 = ok1 && (k2 == 0 || (k2 == 1 && (seekK(src, q1, 1, d0) == 2 || (seekK(src, q1, 1, d0) == 1 && seekCanon(src, q1, 1, d0)))))
-//@   opaque [C04] *
+//@   opaque [C04,C06] *
 //@   perreturn
 //@   ensures [C04] (ok1 && err == nil) ==> st.Policy == (k1 == 0 ? decStrV(src, q0, 0, d0) : old(st.Policy))
+//@   ensures [C06] (k1 == 2) ==> err != nil
 //@   ensures [C04] (ok2 && err == nil) ==> st.Value == (k2 == 0 ? decStrV(src, q1, 1, d0) : old(st.Value))
+//@   ensures [C06] (ok1 && k2 == 2) ==> err != nil
 //@   ensures [C04] ok2 ==> (err == nil && readBuf.buf.i == q2)
 //@   safety [C05]
 //
@@ -139,6 +167,18 @@ package propertyf
 //@   perreturn
 //@   modifies buf.buf.bytes
 //@   ensures [C03] err == nil && buf.buf.bytes == pre
+//@   safety [C03]
+//
+//@ func (*StatPropInfo).WriteBlock
+//@   requires st != nil && validB(buf) && len(st.Policy) < 4294967296 && len(st.Value) < 4294967296
+//@   let e0 = buf.buf.bytes ++ head(StructBegin, tag)
+//@   let e1 = e0 ++ encString(0, st.Policy)
+//@   let e2 = e1 ++ encString(1, st.Value)
+//@   let pre = e2 ++ head(StructEnd, 0)
+//@   opaque head encInt8 encInt16 encInt32 encInt64 encString encBool
+//@   perreturn
+//@   modifies buf.buf.bytes
+//@   ensures [C03] result == nil && buf.buf.bytes == pre
 //@   safety [C03]
 //
 //@ func (*StatPropMsgBody).ResetDefault
